@@ -395,6 +395,8 @@ class Interp:
                 self.raise_(ZeroDivisionError, str(e), node=node)
         if a is None or b is None or isinstance(a, (str, SymObj, Opaque, list, dict)) or isinstance(b, (str, SymObj, Opaque, list, dict)):
             self.raise_(TypeError, 'unsupported operand type(s)', node=node)
+        if isinstance(op, ast.Div) and is_symint(a) and isinstance(b, (int, float)) and not isinstance(b, bool) and b != 0:
+            return Quot(a, b)
         za, zb = zint(a), zint(b)
         if isinstance(op, ast.Add):
             return za + zb
@@ -1254,7 +1256,8 @@ class Interp:
                 nm = nd.func.value.id
             elif isinstance(nd, ast.Subscript) and isinstance(nd.ctx, (ast.Store, ast.Del)) and isinstance(nd.value, ast.Name):
                 nm = nd.value.id
-            if nm is not None and nm in env and isinstance(env[nm], (list, dict, set, bytearray)) and nm not in custom:
+            if nm is not None and nm in env and isinstance(env[nm], (list, dict, set, bytearray)) and nm not in custom \
+                    and nm not in getattr(spec, 'abstracts', ()):
                 raise Unsupported(f'loop at L{s.lineno} mutates the container {nm!r} but its specification has no abstraction (havoc) for it')
         which = run.choose([('body', True), ('exit', True)], f'loop{getattr(s, "_ordinal", "")}')
         spec.havoc(self, env, g, targets)
